@@ -19,6 +19,8 @@ fn prog_alpha() -> Vec<Vec<Op>> {
         vec![Op::Put(1, 7), Op::Append],
         vec![Op::Require(1), Op::Append, Op::Emit(2)],
         vec![Op::RequireAbsent(1), Op::Put(1, 9), Op::Append],
+        // accepted by the policy but sent with a wrong parent max cut: refused by the runtime
+        vec![Op::BadParentCut, Op::Put(2, 5), Op::Append, Op::Emit(4)],
     ]
 }
 
@@ -37,6 +39,7 @@ pub fn universes(n_min: usize, n_max: usize, max_special: usize, merges: bool) -
             mcx::enumerate::sequences(alpha.len(), singles.len(), |ps| {
                 let special = ps.iter().filter(|&&p| p != 0).count();
                 let failing = ps.iter().filter(|&&p| (1..=3).contains(&p) || p >= 5).count();
+                let _ = failing;
                 if special > max_special || failing == 0 {
                     return;
                 }
